@@ -48,12 +48,12 @@ def splitSeconds (x : Rat) : Nat × Nat :=
   let us := roundHalfEven (fmul fp 1000000)      -- `floatpart *= 1e6; round`
   if 1000000 ≤ us then (ip + 1, us - 1000000) else (ip, us)
 
+def dtOf (v : Nat × Nat × Nat × Nat × Nat × Nat) (us : Nat) : DT :=
+  { year := v.1, month := v.2.1, day := v.2.2.1, hour := v.2.2.2.1, minute := v.2.2.2.2.1, second := v.2.2.2.2.2,
+    microsecond := us }
+
 def fromTimestampF (x : Rat) : R DT :=
-  let (s, us) := splitSeconds x
-  match Acra.Model.Ch11Pay.TimeFmt.fromTimestamp (s : Int) with
-  | .error e => .error e
-  | .ok (y, mo, d, h, mi, sec) =>
-    .ok { year := y, month := mo, day := d, hour := h, minute := mi, second := sec, microsecond := us }
+  (Acra.Model.Ch11Pay.TimeFmt.fromTimestamp ((splitSeconds x).1 : Int)).map fun v => dtOf v (splitSeconds x).2
 
 /-! ### STANAG4609_SEI -/
 
@@ -79,27 +79,34 @@ def seiUseconds (ms1 ms2 ms3 ms4 : Nat) : Nat := (ms1 <<< 48) + (ms2 <<< 32) + (
 /-- `float(useconds) / 1.0e6` -/
 def seiSeconds (us : Nat) : Rat := fdiv (ofNat us) (SEI_US_PER_S : Rat)
 
+/-- the part of `STANAG4609_SEI.unpack` after the ten fields of an unregistered-data payload were read.
+    Every exit builds the object from the prior state `t` in one step (the attributes assigned so far, in
+    the order the code assigns them: payloadtype, payloadsize, unregdata, status, seconds, nanoseconds,
+    time, stanag); nested record updates are avoided only because they make proof terms explode. -/
+def SEI.signed (t : SEI) (pt ps sig1 sig2 st ms1 f1 ms2 f2 ms3 f3 ms4 : Nat) : SEI × R Unit :=
+  if sig1 = SEI_SIG1 ∧ sig2 = SEI_SIG2 ∧ f1 = SEI_FIX ∧ f2 = SEI_FIX2 ∧ f3 = SEI_FIX3 then
+    match fromTimestampF (seiSeconds (seiUseconds ms1 ms2 ms3 ms4)) with
+    | .error e =>
+      ({ t with payloadtype := some pt, payloadsize := some ps, unregdata := true, status := some st,
+                seconds := some (seiSeconds (seiUseconds ms1 ms2 ms3 ms4)),
+                nanoseconds := some ((ms3 <<< 16) + ms4) }, .error e)
+    | .ok dt =>
+      ({ t with payloadtype := some pt, payloadsize := some ps, unregdata := true, status := some st,
+                seconds := some (seiSeconds (seiUseconds ms1 ms2 ms3 ms4)),
+                nanoseconds := some ((ms3 <<< 16) + ms4), time := some dt, stanag := true }, .ok ())
+  else ({ t with payloadtype := some pt, payloadsize := some ps, unregdata := true, status := some st }, .ok ())
+
 def SEI.unpack (t : SEI) (buf : Bytes) : SEI × R Unit :=
   match structUnpack SEI_unpack_fmt0 (slice buf 0 2) with
   | .error e => (t, .error e)
-  | .ok [pt, ps] =>
-    let t1 := { t with payloadtype := some pt, payloadsize := some ps }
-    if pt = SEI_UNREG_DATA then
-      let t2 := { t1 with unregdata := true }
+  | .ok v0 =>
+    if v0.getD 0 0 = SEI_UNREG_DATA then
       match structUnpackFrom SEI_unpack_fmt1 (buf.drop 2) 0 with
-      | .error e => (t2, .error e)
-      | .ok [sig1, sig2, st, ms1, f1, ms2, f2, ms3, f3, ms4] =>
-        let t3 := { t2 with status := some st }
-        if sig1 = SEI_SIG1 ∧ sig2 = SEI_SIG2 ∧ f1 = SEI_FIX ∧ f2 = SEI_FIX2 ∧ f3 = SEI_FIX3 then
-          let sec := seiSeconds (seiUseconds ms1 ms2 ms3 ms4)
-          let t4 := { t3 with seconds := some sec, nanoseconds := some ((ms3 <<< 16) + ms4) }
-          match fromTimestampF sec with
-          | .error e => (t4, .error e)
-          | .ok dt => ({ t4 with time := some dt, stanag := true }, .ok ())
-        else (t3, .ok ())
-      | .ok _ => (t2, .error .struct)
-    else (t1, .ok ())
-  | .ok _ => (t, .error .struct)
+      | .error e =>
+        ({ t with payloadtype := some (v0.getD 0 0), payloadsize := some (v0.getD 1 0), unregdata := true }, .error e)
+      | .ok v => SEI.signed t (v0.getD 0 0) (v0.getD 1 0) (v.getD 0 0) (v.getD 1 0) (v.getD 2 0) (v.getD 3 0)
+                   (v.getD 4 0) (v.getD 5 0) (v.getD 6 0) (v.getD 7 0) (v.getD 8 0) (v.getD 9 0)
+    else ({ t with payloadtype := some (v0.getD 0 0), payloadsize := some (v0.getD 1 0) }, .ok ())
 
 /-! ### ADTS -/
 
@@ -119,10 +126,9 @@ def ADTS.unpack (t : ADTS) (buf : Bytes) : ADTS × R Unit :=
   | .ok [w0, w1, w2, w3, w4, w5, _w6] =>
     let sw := ((w1 >>> 4) <<< 8) + w0
     if sw ≠ ADTS_SYNC then (t, .error .generic) else
-    let nc := (w1 &&& 1) != 0
-    let t1 := { t with sampling_freq := (w2 >>> 2) &&& 0xF, no_crc := nc,
-                       length := (w5 >>> 5) + (w4 <<< 3) + ((w3 &&& 0x3) <<< 11) }
-    ({ t1 with aac := if nc then buf.drop 7 else buf.drop 9 }, .ok ())
+    ({ t with sampling_freq := (w2 >>> 2) &&& 0xF, no_crc := (w1 &&& 1) != 0,
+              length := (w5 >>> 5) + (w4 <<< 3) + ((w3 &&& 0x3) <<< 11),
+              aac := if (w1 &&& 1) != 0 then buf.drop 7 else buf.drop 9 }, .ok ())
   | .ok _ => (t, .error .struct)
 
 /-! ### NAL -/
@@ -139,14 +145,13 @@ def NAL.fresh : NAL := { type := 0, size := 0, sei := none, offset := 0 }
 def NAL.unpack (t : NAL) (buf : Bytes) : NAL × R Unit :=
   match structUnpackFrom NAL_unpack_fmt0 buf NAL_HEADER_LEN with
   | .error e => (t, .error e)
-  | .ok [ty] =>
-    let t1 := { t with type := ty &&& NAL_TYPE_MASK, size := buf.length }
-    if t1.type = NAL_TYPE_SEI then
+  | .ok v =>
+    let ty := v.getD 0 0 &&& NAL_TYPE_MASK
+    if ty = NAL_TYPE_SEI then
       match SEI.unpack SEI.fresh (buf.drop (NAL_HEADER_LEN + 1)) with
-      | (_, .error e) => (t1, .error e)
-      | (sei, .ok _) => ({ t1 with sei := some sei }, .ok ())
-    else (t1, .ok ())
-  | .ok _ => (t, .error .struct)
+      | (_, .error e) => ({ t with type := ty, size := buf.length }, .error e)
+      | (sei, .ok _) => ({ t with type := ty, size := buf.length, sei := some sei }, .ok ())
+    else ({ t with type := ty, size := buf.length }, .ok ())
 
 /-! ### strict UTF-8 (what `bytes.decode()` accepts) -/
 
